@@ -5,6 +5,7 @@ C16 — Convenience wrappers equal the core call; partial processing equals zero
 statements hold for all seven resampler types and both sample types at once.
 -/
 import RubatoModel.Wrappers
+import RubatoModel.Generated
 
 set_option linter.unusedSectionVars false
 set_option linter.unusedVariables false
@@ -117,5 +118,19 @@ theorem partial_wrapper (C : Core S χ) (s : S) (input : Option (List χ)) (mask
     processPartialW C s input mask = processW C s (paddedInput C s input) mask := by
   unfold processPartialW processW processPartialInto
   rfl
+
+/-! ### the object-safe wrapper trait (`implement_resampler!`, extracted by the translator, tie G8) -/
+
+/-- every method of the generated wrapper trait is one call of the `rubato::Resampler` method OF THE SAME NAME, on
+`self`, with the wrapper's own parameters in their own order — "forwards every method unchanged" as a statement about
+the macro text the translator extracted from lib.rs in this run -/
+theorem vec_wrapper_forwards_same_method :
+    ∀ e ∈ Rubato.Gen.Forward.forwardTable, e.2.1 = e.1 ∧ e.2.2.1 = List.range e.2.2.2 := by
+  decide
+
+/-- and the blanket impl defines every declared method exactly once -/
+theorem vec_wrapper_covers_all_methods :
+    (Rubato.Gen.Forward.forwardTable.map (·.1)).Perm (List.range Rubato.Gen.Forward.forwardMethods) := by
+  decide
 
 end Rubato.C16
